@@ -188,7 +188,9 @@ def run(ctx, rep):
                         for k in range(8):
                             if by.bit(k) != r1.bit(8 * src + k):
                                 ok = False
-                rep.check(ok, "O6", "%s:to_%s_bytes" % (name, endian), "to_%s_bytes must serialise the raw value's low %d byte(s) in %s-endian order; got %r for raw %r" % (endian, nbytes, endian, arr, r1), at=f.span, fn=f.path)
+                unknown = not isinstance(arr, Arr) or any(not isinstance(x, BV) or any(by_ == T for by_ in x.bits) for x in arr.items)
+                rep.check(ok, "O6", "%s:to_%s_bytes" % (name, endian), "to_%s_bytes must serialise the raw value's low %d byte(s) in %s-endian order; got %r for raw %r" % (endian, nbytes, endian, arr, r1), at=f.span, fn=f.path,
+                          status="undecided" if unknown else "refuted")
 
 
 def binary(prog, rep, be, cty, rty):
